@@ -53,5 +53,25 @@ CHECKS = {
         note="Cases whose exact block variance lies in [1e-18, 1e-12] are skipped (round-off could cross the 1e-15 tolerance); ddof 0 or 1 accepted consistently per call.",
         technique="property-based testing (Hypothesis) against exact rational per-block statistics",
     ),
+    "C11": dict(
+        text="Exhaustive enumeration of small block-occupancy vectors (populations 0..4 per block, 2..6 blocks, 1- and 2-row layouts) x n_splits x "
+             "shuffle x balance x seeds for BlockKFold, plus generated layouts (up to 5x5 blocks, populations 0..30, shuffled sample order) for "
+             "BlockKFold and BlockShuffleSplit; every split is checked to be a partition with no block on both sides; BlockKFold folds are non-empty, "
+             "disjoint, covering, balanced within one block population (+n_splits) or equal in block count after the documented fallback; "
+             "BlockShuffleSplit tests the number of blocks scikit-learn prescribes, picks the best-balanced candidate, and both are reproducible.",
+        design_ref="DESIGN.md 5 (C11)",
+        note="Membership known by construction (region inferred, corner points pin the bounding box); BlockShuffleSplit candidates assumed to be consecutive "
+             "splits of one seeded scikit-learn ShuffleSplit stream over the occupied block ids.",
+        technique="exhaustive enumeration of small occupancy vectors + property-based testing (Hypothesis) with validity predicates and a differential re-implementation",
+    ),
+    "C14": dict(
+        text="Generated clouds on a dyadic lattice (exact edge comparisons, points on window edges by construction) and free-float clouds; window centres "
+             "compared with the exact grid model on the region shrunk by half a window; for every window the returned indices must select exactly the "
+             "closed-square members, index the input arrays directly (1-D and 2-D), be empty integer arrays for empty windows; coverage asserted when "
+             "windows overlap; expanding windows follow the order of sizes and are nested; oversize/missing arguments rejected.",
+        design_ref="DESIGN.md 5 (C14)",
+        note="Free-float mode exempts points within 1e-9*size of a window edge; up to 40 points and 6x6 windows per case.",
+        technique="property-based testing (Hypothesis) against a brute-force closed-square membership model in rational arithmetic",
+    ),
 }
 NOT_APPLICABLE = {}
